@@ -2,5 +2,7 @@ import IrVerif.Props.C01
 open IrVerif.Kernel
 #print axioms C01_init
 #print axioms C01_step
+#print axioms C01_step_conv
+#print axioms C01_step_any
 #print axioms C01_history
 #print axioms C01_history_from
